@@ -395,6 +395,19 @@ def rename_rewrite_sites(p: Program, pr, f: Func):
                 it_o = pr.origins(n.generators[0].iter, fn)
                 if any(is_call(o, "set_of_file_paths") for o in it_o):
                     out.append((fn, n))
+    # other sets may be derived from the expected set (folders of the recorded files, ...): the rewrite is the comprehension that consults the
+    # rename map; failing that, the one that replaces the expected set in place (so that a rewrite which lost the map is still judged)
+    def uses_map(fn, comp):
+        return any(isinstance(x, ast.Name) and any(is_call(o, "renamed_path_with_previous_path") for o in pr.origins(x, fn)) for x in ast.walk(comp.elt))
+
+    def in_place(fn, comp):
+        par = parent(comp)
+        return isinstance(par, ast.Assign) and len(par.targets) == 1 and isinstance(comp.generators[0].iter, ast.Name) and norm(par.targets[0]) == comp.generators[0].iter.id
+
+    if len(out) > 1:
+        narrowed = [(fn, c) for fn, c in out if uses_map(fn, c)] or [(fn, c) for fn, c in out if in_place(fn, c)]
+        if narrowed:
+            out = narrowed
     return out
 
 
@@ -452,3 +465,98 @@ def rename_rewrite_ok(p: Program, pr, fn: Func, comp: ast.SetComp):
             if isinstance(t.ops[0], ast.NotIn) and is_p(e.body) and sub_p(e.orelse):
                 return True, ""
     return False, f"element expression `{norm(e)[:80]}` is not 'the new path of p if p was renamed, else p'"
+
+
+LAZY_BUILTINS = {"map", "filter", "iter", "zip", "reversed", "enumerate", "itertools.chain", "chain", "itertools.islice", "islice"}
+
+
+def lazy_iterable(p, f, e, depth=4, _seen=None):
+    """the construct through which `e` can be a lazy iterator (generator expression, generator call, map/filter/...): such an object is
+    truthy whether or not it yields anything, so `if e:` says nothing about emptiness. None when every value found is a sized container."""
+    _seen = _seen if _seen is not None else set()
+    if e is None or depth < 0:
+        return None
+    if isinstance(e, ast.GeneratorExp):
+        return f"generator expression at {f.loc(e)}"
+    if isinstance(e, ast.IfExp):
+        return lazy_iterable(p, f, e.body, depth, _seen) or lazy_iterable(p, f, e.orelse, depth, _seen)
+    if isinstance(e, ast.BoolOp):
+        for v in e.values:
+            r = lazy_iterable(p, f, v, depth, _seen)
+            if r:
+                return r
+        return None
+    if isinstance(e, ast.Call):
+        if norm(e.func) in LAZY_BUILTINS:
+            return f"{norm(e.func)}(...) at {f.loc(e)}"
+        for q in p.resolve_call(e, f):
+            g = p.funcs.get(q)
+            if g is not None and g.is_generator():
+                return f"generator {g.qual} called at {f.loc(e)}"
+        return None
+    if isinstance(e, ast.Name):
+        key = (f.qual, e.id)
+        if key in _seen:
+            return None
+        _seen.add(key)
+        for n in walk_no_nested(f.node):
+            if isinstance(n, ast.Assign) and any(isinstance(t, ast.Name) and t.id == e.id for t in n.targets):
+                r = lazy_iterable(p, f, n.value, depth, _seen)
+                if r:
+                    return r
+            if isinstance(n, ast.AnnAssign) and isinstance(n.target, ast.Name) and n.target.id == e.id and n.value is not None:
+                r = lazy_iterable(p, f, n.value, depth, _seen)
+                if r:
+                    return r
+        if e.id in f.params or e.id in f.kwonly:
+            for cq, call in p.callers.get(f.qual, []):
+                c = p.funcs.get(cq)
+                if c is None:
+                    continue
+                r = lazy_iterable(p, c, p.bind_args(f, call).get(e.id), depth - 1, _seen)
+                if r:
+                    return r
+    return None
+
+
+def reused_lazy_iterators(p, f):
+    """[(binding stmt, consuming node, loop)] - a local name bound OUTSIDE a loop to a single-use iterator (filter/map/generator expression/generator call ...)
+    and consumed (iterated, or handed to a consuming builtin) INSIDE that loop: from the loop's second iteration on it is exhausted and yields nothing"""
+    out = []
+    for asg in walk_no_nested(f.node):
+        if not (isinstance(asg, ast.Assign) and len(asg.targets) == 1 and isinstance(asg.targets[0], ast.Name)):
+            continue
+        name = asg.targets[0].id
+        # the value itself must be lazy (not merely something reachable through parameters)
+        v = asg.value
+        direct = isinstance(v, ast.GeneratorExp) or (isinstance(v, ast.Call) and (norm(v.func) in LAZY_BUILTINS or any(p.funcs.get(q) is not None and p.funcs[q].is_generator() for q in p.resolve_call(v, f))))
+        if not direct:
+            continue
+        # single binding only (a re-binding inside the loop refreshes it)
+        binds = [n for n in walk_no_nested(f.node) if isinstance(n, (ast.Assign, ast.AugAssign, ast.AnnAssign)) and any(isinstance(x, ast.Name) and isinstance(x.ctx, ast.Store) and x.id == name for x in ast.walk(n))]
+        if len(binds) != 1:
+            continue
+        for loop in walk_no_nested(f.node):
+            if not isinstance(loop, (ast.For, ast.While)):
+                continue
+            if _is_inside(asg, loop):
+                continue
+            for st in loop.body:
+                for n in ast.walk(st):
+                    use = None
+                    if isinstance(n, (ast.For, ast.comprehension)) and isinstance(n.iter, ast.Name) and n.iter.id == name:
+                        use = n if isinstance(n, ast.For) else n.iter
+                    elif isinstance(n, ast.Call) and norm(n.func) in ("list", "tuple", "set", "sorted", "any", "all", "sum", "max", "min", "next", "len", "dict", "frozenset") and n.args and isinstance(n.args[0], ast.Name) and n.args[0].id == name:
+                        use = n
+                    if use is not None:
+                        out.append((asg, use, loop))
+    return out
+
+
+def _is_inside(n, container):
+    x = n
+    while x is not None:
+        if x is container:
+            return True
+        x = parent(x)
+    return False
